@@ -134,7 +134,8 @@ def c15_run(desc):
 
             def say(ch, k):
                 cmd, t = os.path.basename(ch.argv[0]).split(".")[0], os.path.relpath(ch.cwd, r.dir)
-                c.send(ch, ["out " + burst("stdout", t, cmd, k).hex(), "err " + burst("stderr", t, cmd, k).hex()])
+                # the first burst is preceded by the environment the executable was started with
+                c.send(ch, (["outenv"] if k == 0 else []) + ["out " + burst("stdout", t, cmd, k).hex(), "err " + burst("stderr", t, cmd, k).hex()])
                 c.wait_acks(ch, 10)
 
             def pause():
@@ -172,7 +173,7 @@ def c15_run(desc):
                 st = None if doc is None else {"%s:%s" % k: list(v) for k, v in statuses(doc).items()}
                 return {"exit": p.code, "hung": hung, "orphans": 0, "stderr": p.err[:300].decode(errors="replace"),
                         "failed": None if doc is None else doc.get("failed"), "statuses": st,
-                        "logs": None if doc is None else {"%s|%s|%s" % k: v.decode(errors="replace") for k, v in stored_logs(r, doc).items()},
+                        "logs": None if doc is None else {"%s|%s|%s" % k: re.sub(r"/mrv-[^/:\n]+", "/mrv-X", v.decode(errors="replace")) for k, v in stored_logs(r, doc).items()},
                         "listener_saw": None if lis is None else len(lis.p.out)}
             nb = 0
             for ch in g1:
@@ -238,7 +239,7 @@ def c15_run(desc):
             obs = {"exit": p.code, "hung": hung, "orphans": len(orphans), "stderr": p.err[:300].decode(errors="replace"),
                    "failed": None if doc is None else doc.get("failed"),
                    "statuses": None if doc is None else {"%s:%s" % k: list(v) for k, v in statuses(doc).items()},
-                   "logs": None if doc is None else {"%s|%s|%s" % k: v.decode(errors="replace") for k, v in stored_logs(r, doc).items()},
+                   "logs": None if doc is None else {"%s|%s|%s" % k: re.sub(r"/mrv-[^/:\n]+", "/mrv-X", v.decode(errors="replace")) for k, v in stored_logs(r, doc).items()},
                    "listener_saw": None if lis is None else len(lis.p.out)}
             return obs
         finally:
@@ -318,7 +319,7 @@ B20 = "b-" + "\u00e9\u20ac" * 10   # a 52-byte target name made of 2- and 3-byte
 TARGETS20 = [{"path": "a"}, {"path": B20}]
 
 
-def parse_tail(out):
+def parse_tail(out, multi=False):
     """listener stdout -> (stream header lines, blocks [(file, target, command, body)], junk lines)"""
     lines = out.split(b"\n")
     if lines and lines[-1] == b"":
@@ -330,8 +331,11 @@ def parse_tail(out):
         if m:
             cur = [m.group(1).decode(), m.group(2).decode(), m.group(3).decode(), b""]
             blocks.append(cur)
-        elif STREAM_HDR.match(ln) and cur is None:
+        elif STREAM_HDR.match(ln) and (cur is None or multi):
+            # multi: several runs connect to this listener one after the other; each connection's
+            # stream header ends whatever block came before it
             hdrs.append(ln)
+            cur = None
         elif cur is not None:
             cur[3] += ln + b"\n"
         elif hdrs:
@@ -504,6 +508,89 @@ def c20_run(desc):
         s.cleanup()
 
 
+def c20_two_runs(desc):
+    """Two repositories with different lock ports but the same log port: one listener, two runs alive at
+    the same time. Whatever the listener does with the second connection (serve it after the first, or
+    at once), every block it prints must carry lines of the task its header names only."""
+    s = sc.Scratch("c20two")
+    try:
+        r1 = sc.Repo(s, "r1", [{"path": "a"}, {"path": B20}], commands={"a": {"build": "x"}, B20: {"build": "x"}}, init_git=False)
+        r2 = sc.Repo(s, "r2", [{"path": "x"}, {"path": "y"}], commands={"x": {"build": "x"}, "y": {"build": "x"}}, init_git=False)
+        r2.cfg["server"]["log"]["port"] = r1.log_port
+        r2.write_cfg()
+        c = ctlmod.Controller(s)
+        try:
+            lis = Listener(c, r1, s, ["--stdout", "--stderr"])
+            env = s.env(c.env())
+            p1 = c.spawn("run1", [common.MONORAIL, "run", "-c", "build", "-t", "a", B20, "--deps"], r1.dir, env)
+            c.wait(lambda: len(c.waiting()) >= 2 or p1.done(), 15)
+            p2 = c.spawn("run2", [common.MONORAIL, "run", "-c", "build", "-t", "x", "y", "--deps"], r2.dir, env)
+            c.wait(lambda: len(c.waiting()) >= 4 or p2.done(), 1.5)   # run2 may be held in its handshake: fine
+            sent = {}
+            t_end = time.time() + 40
+            while not (p1.done() and p2.done()) and time.time() < t_end:
+                progressed = False
+                for ch in sorted(c.waiting(), key=lambda ch: ch.cwd):
+                    k = sent.get(ch.id, 0)
+                    if k < 3:
+                        t = os.path.basename(ch.cwd) if os.path.dirname(ch.cwd) in (r1.dir, r2.dir) else os.path.relpath(ch.cwd, r1.dir)
+                        lines = ["out " + burst("stdout", t, "build", k).hex(), "err " + burst("stderr", t, "build", k).hex()]
+                        if k == 1:
+                            # a large block on each stream, so that relaying it takes the listener a while
+                            lines += ["outrep 4000 " + ("stdout bulk of build:%s\n" % t).encode().hex(), "errrep 4000 " + ("stderr bulk of build:%s\n" % t).encode().hex()]
+                        c.send(ch, lines)
+                        c.wait_acks(ch, 10)
+                        sent[ch.id] = k + 1
+                        progressed = True
+                    else:
+                        c.release(ch, 0)
+                        progressed = True
+                c.wait(lambda: False, GAP if progressed else 0.1)
+            viol = []
+            for p_ in (p1, p2):
+                if not p_.done():
+                    c.kill(p_, group=True)
+                    viol.append(("run-hung", "a run did not exit"))
+            c.settle(0.2, 2.0)
+            stored = {}
+            for p_, r_ in ((p1, r1), (p2, r2)):
+                doc = sc.Result(p_.code, p_.out, p_.err).json()
+                if doc is None or p_.code != 0:
+                    return {"blocked": "run failed: exit %s %s" % (p_.code, p_.err[:200])}
+                stored.update(stored_logs(r_, doc))
+
+            def caught_up():
+                _, blks, _ = parse_tail(lis.p.out, multi=True)
+                per_ = {}
+                for f, t, cmd, body in blks:
+                    per_[(f, t, cmd)] = per_.get((f, t, cmd), b"") + body
+                return sum(len(v) for v in per_.values()) >= sum(len(stored[k]) for k in per_ if k in stored)
+            c.wait(caught_up, 20)
+            lis.kill(signal.SIGTERM)
+            hdrs, blocks, junk = parse_tail(lis.p.out, multi=True)
+            if junk:
+                viol.append(("text-outside-blocks", "lines before any block header: %s" % junk[:3]))
+            per = {}
+            for f, t, cmd, body in blocks:
+                per[(f, t, cmd)] = per.get((f, t, cmd), b"") + body
+            for k, body in per.items():
+                if k not in stored:
+                    viol.append(("block-outside-filter", "block for %s, which is no task of either run" % (k,)))
+                elif body != stored[k]:
+                    viol.append(("reassembly-differs", "two runs on one listener: key %s: streamed %d bytes %r..., stored %d bytes" % (k, len(body), body[:80], len(stored[k]))))
+            return {"evaluations": 1, "nontrivial": 1 if len({k[1] for k in per}) > 2 else 0, "blocks": len(blocks), "held": False, "contended": False,
+                    "violations": [{"sig": sig, "detail": d, "rank": 3, "case": {"c20": desc}} for sig, d in viol],
+                    "sample": {"two_runs": True, "stream_headers": len(hdrs), "blocks": len(blocks), "keys_streamed": len(per), "stored_keys": len(stored)}}
+        finally:
+            c.close()
+    except common.EngineError as e:
+        return {"engine_error": str(e)}
+    except Exception:
+        return {"engine_error": traceback.format_exc()[-1500:]}
+    finally:
+        s.cleanup()
+
+
 def c20_scenarios(tier):
     out = []
     streams = [["--stdout"], ["--stderr"], ["--stdout", "--stderr"]]
@@ -535,6 +622,9 @@ def c20_scenarios(tier):
     # a listener that also prints its own diagnostics (-v, -vv, -vvv)
     for vb in ("-v", "-vv", "-vvv"):
         out.append({"streams": ["--stdout", "--stderr"], "targets": [], "commands": [], "short": True, "verbosity": vb})
+    # two runs (different lock ports, same log port) alive on one listener at the same time
+    for i in range(2 if tier == "quick" else 6):
+        out.append({"two_runs": True, "rep": i, "streams": ["--stdout", "--stderr"], "targets": [], "commands": []})
     # filter values given twice
     out.append({"streams": ["--stdout", "--stderr"], "targets": ["a", "a"], "commands": ["build", "build"], "short": True})
     out.append({"streams": ["--stderr"], "targets": [B20, "a", B20], "commands": [], "short": True})
@@ -556,6 +646,8 @@ def c20_scenarios(tier):
 
 def _worker(task):
     kind, desc = task
+    if kind == "c20" and desc.get("two_runs"):
+        return c20_two_runs(desc)
     return c15_run(desc) if kind == "c15" else c20_run(desc)
 
 
@@ -631,7 +723,7 @@ def replay(prop, path):
         viol = c15_compare(d, obs, base)
         viol = [{"sig": a, "detail": b} for a, b in viol]
     else:
-        r = c20_run(case["c20"])
+        r = c20_two_runs(case["c20"]) if case["c20"].get("two_runs") else c20_run(case["c20"])
         if "engine_error" in r:
             print("ENGINE:", r["engine_error"])
             return 2
